@@ -495,7 +495,15 @@ func scenUpperCaseDenomSupply() []monFailure {
 			}
 			return coin.Amount
 		}
-		for _, coin := range supply {
+		// also denominations nothing was ever issued in (sorting before, between and after the issued ones): the bank's
+		// SupplyOf answers 0 in the requested denomination, never another denomination's amount
+		asked := append(sdk.Coins{}, supply...)
+		for _, d := range []string{"aaa", "ibc/00", "nunc", "nundx", "uatol", "zzzz", "Aaa"} {
+			if c.app.BankKeeper.GetSupply(ctx, d).Amount.IsZero() {
+				asked = append(asked, sdk.NewCoin(d, sdk.ZeroInt()))
+			}
+		}
+		for _, coin := range asked {
 			for i, h := range []func() (*enttypes.QuerySupplyOfResponse, error){
 				func() (*enttypes.QuerySupplyOfResponse, error) {
 					return ek.SupplyOf(gctx, &enttypes.QuerySupplyOfRequest{Denom: coin.Denom})
